@@ -3,6 +3,7 @@
    sumbool, sumor map to their OCaml counterparts; nat, positive, N, Z stay Coq inductive types. *)
 Require Import Coq.ZArith.ZArith.
 Require Import Trzsz.Model.Escape.
+Require Import Trzsz.Model.Relay.
 Require Extraction.
 Require Import ExtrOcamlBasic.
 Extraction "model.ml"
@@ -31,4 +32,7 @@ Extraction "model.ml"
   Escape.table_of_json
   Escape.builtin_table
   Escape.esc_code
-  Escape.unesc_code.
+  Escape.unesc_code
+  Relay.run
+  Relay.init
+  Relay.step_fn.
